@@ -156,15 +156,31 @@ def _det_batch(base_seed, pid_, idxs):
 # known findings
 # ----------------------------------------------------------------------------
 def load_known(pid_):
-    path = os.path.join(VERIF, "known_findings.jsonl")
+    """known_findings.txt, one entry per line (never written at run time):
+
+    fixed: property=<id> <commit> <what failed>            -- suppresses nothing
+    known: property=<id> id=<entry id> keys=<fnmatch pattern>[ <pattern>...] :: <what fails>
+    """
+    path = os.path.join(VERIF, "known_findings.txt")
     known = []
     if os.path.exists(path):
         for line in open(path):
             line = line.strip()
-            if not line or line.startswith("#"):
+            if not line.startswith("known:"):
                 continue
-            e = json.loads(line)
-            if e.get("property") == pid_ and e.get("status") == "known":
+            head, _, what = line[len("known:"):].partition("::")
+            fields = head.split()
+            e = {"what": what.strip(), "keys": []}
+            for f in fields:
+                if f.startswith("property="):
+                    e["property"] = f[9:]
+                elif f.startswith("id="):
+                    e["id"] = f[3:]
+                elif f.startswith("keys="):
+                    e["keys"].append(f[5:])
+                else:
+                    e["keys"].append(f)
+            if e.get("property") == pid_:
                 known.append(e)
     return known
 
